@@ -64,25 +64,30 @@ def increasePenalty (pit pif : α) (penalty threshold : α) : α :=
 /-- outcome of `decrease_penalty` for the value `_get_low_penalty()` returned -/
 def decreasePenalty (penalty low : α) : α := min2 penalty low
 
-/-- state of the scan of `set_best_index`: current best index, its merit value and violation,
-number of switches made because of the tolerance -/
+/-- state of the scan of `set_best_index`: current best index, its merit value and violation, the rounding tolerance
+in force (that of the current best merit), the number of switches made because of the tolerance and the sum of the
+tolerances they used -/
 structure Scan (α : Type) where
   best : Nat
   m : α
   r : α
+  tol : α
   tolSwitches : Nat
+  slack : α
 
 /-- one iteration of the loop of `set_best_index` for the point `k` with merit `mk`, violation `rk`;
-`b0` is the best index on entry (the loop skips it) -/
-def scanStep (tol : α) (b0 : Nat) (s : Scan α) (k : Nat) (mk rk : α) : Scan α :=
+`b0` is the best index on entry (the loop skips it); `tolOf m` is `10 eps max(n, npt) max(|m|, 1)`, recomputed
+whenever the best point changes -/
+def scanStep (tolOf : α → α) (b0 : Nat) (s : Scan α) (k : Nat) (mk rk : α) : Scan α :=
   if k = b0 then s
-  else if lt mk s.m then { s with best := k, m := mk, r := rk }
-  else if lt mk (add s.m tol) && lt rk s.r then { best := k, m := mk, r := rk, tolSwitches := s.tolSwitches + 1 }
+  else if lt mk s.m then { s with best := k, m := mk, r := rk, tol := tolOf mk }
+  else if lt mk (add s.m s.tol) && lt rk s.r then
+    { best := k, m := mk, r := rk, tol := tolOf mk, tolSwitches := s.tolSwitches + 1, slack := add s.slack s.tol }
   else s
 
 /-- `set_best_index`: `pts k = (merit, violation)` of interpolation point `k` -/
-def setBestIndex (tol : α) (b0 : Nat) (pts : List (α × α)) (m0 r0 : α) : Scan α :=
-  (pts.zipIdx).foldl (fun s (p, k) => scanStep tol b0 s k p.1 p.2) ⟨b0, m0, r0, 0⟩
+def setBestIndex (tolOf : α → α) (b0 : Nat) (pts : List (α × α)) (m0 r0 : α) : Scan α :=
+  (pts.zipIdx).foldl (fun s (p, k) => scanStep tolOf b0 s k p.1 p.2) ⟨b0, m0, r0, tolOf m0, 0, Arith.ofNat 0⟩
 
 /-- `np.argmax` helper: remaining values, their first index, best index and best value so far -/
 def argmaxAux : List α → Nat → Nat → α → Nat
